@@ -247,6 +247,7 @@ func runCheck(cmd, prop, tier, fnFilter, oblFilter string, verbose bool) int {
 			known := loadKnown(prop)
 			for _, o := range rr.obls {
 				_, isKnown := lookupKnown(known, o.name)
+				o.quickOnly = isKnown
 				if o.expect == "sat" || lg.isClaimed(o) || isKnown {
 					toSolve = append(toSolve, o)
 				} else {
